@@ -65,9 +65,10 @@ Print Assumptions C04_units_equal_by_scale.
    src/quantity/__init__.py on every run equal the model functions above *)
 Theorem C04_model_is_translated_code : forall ce p q op u v,
   qty_eq_impl ce p q = qty_eq ce p q /\ qty_cmp_impl ce p q op = qty_cmp ce op p q /\
-  unit_eq_impl u v = unit_eq u v.
+  unit_eq_impl u v = unit_eq u v /\ unit_cmp_impl u v op = unit_cmp op u v.
 Proof.
-  intros. split; [apply qty_eq_impl_eq|]. split; [apply qty_cmp_impl_eq | apply unit_eq_impl_eq].
+  intros. split; [apply qty_eq_impl_eq|]. split; [apply qty_cmp_impl_eq|].
+  split; [apply unit_eq_impl_eq | apply unit_cmp_impl_eq].
 Qed.
 Print Assumptions C04_model_is_translated_code.
 
